@@ -378,22 +378,32 @@ def calculate_nd_frequencies(
 
     # TODO: Right edges are not taken into account because they fall into inf bin
     frequencies, _ = np.histogramdd(data, edges, weights=weights)
-    frequencies = frequencies.astype(dtype)  # Automatically copy
-    frequencies = frequencies[ixgrid]
+    frequencies = _cast_contents(frequencies[ixgrid], dtype)
     if weights is not None:
         counts, _ = np.histogramdd(data, edges)
         if counts[ixgrid].sum() == data.shape[0]:
             # Every row is in a bin: the difference of the two sums would be rounding noise only
             missing = frequencies.dtype.type(0)
         else:
-            missing = weights.sum() - frequencies.sum()
+            missing = _cast_contents(weights.sum() - frequencies.sum(), dtype)
         err_freq, _ = np.histogramdd(data, edges, weights=weights**2)
-        errors2 = err_freq[ixgrid].astype(dtype)  # Automatically copy
+        errors2 = _cast_contents(err_freq[ixgrid], dtype)
     else:
-        missing = data.shape[0] - frequencies.sum()
+        missing = _cast_contents(data.shape[0] - frequencies.sum(dtype=np.int64), dtype)
         errors2 = None
 
     return frequencies, errors2, missing
+
+
+def _cast_contents(values, dtype: DTypeLike) -> np.ndarray:
+    """Computed sums in the content type; refused (not wrapped around) if an integer type cannot hold them."""
+    values = np.asarray(values)
+    dtype = np.dtype(dtype)
+    if dtype.kind in "iu" and values.size:
+        type_info = np.iinfo(dtype)
+        if values.max() > type_info.max or values.min() < type_info.min:
+            raise OverflowError(f"Bin contents (or their squared errors) out of bounds for {dtype}.")
+    return values.astype(dtype)
 
 
 def calculate_1d_frequencies(
